@@ -82,7 +82,8 @@ class AlgebraicReductionRule(AbstractNaryRule):
                     new_ops = rule.apply(left, right)
                 except NoReduction:
                     continue
-                operands[index : index + 2] = new_ops
+                # an identity produced by a rule is discarded like any other identity factor
+                operands[index : index + 2] = identity_rule.apply(new_ops)
 
                 # if the rule produces a HomothetyOperator, we deal with it first
                 if any(isinstance(op, HomothetyOperator) for op in new_ops):
